@@ -317,6 +317,62 @@ def rule_bc(model, rep, table):
     rep.minimum(R, 20)
 
 
+MUTATING = {"append", "extend", "insert", "remove", "pop", "sort", "reverse", "clear", "add", "update", "discard", "setdefault", "popitem"}
+
+
+def rule_d(model, rep):
+    """a process-wide memoized value that presets are built from is never edited in place by a consumer"""
+    R = "C17.d-memoized-capabilities-immutable"
+    memo = []
+    for un, unit in model.units.items():
+        if not un.startswith("passlib."):
+            continue
+        for name, fn in unit.funcs.items():
+            if any(ast.unparse(d).split("(")[0].split(".")[-1] in ("memoize_single_value", "lru_cache", "cache") for d in fn.decorator_list):
+                memo.append((un, name, fn))
+    for un, name, fn in memo:
+        from pv.norm import single_defs
+        sd = single_defs(fn)
+        kinds = []
+        for n in walk_no_nested(fn):
+            if isinstance(n, ast.Return) and n.value is not None:
+                v = n.value
+                if isinstance(v, ast.Name) and v.id in sd:
+                    v = sd[v.id]
+                if isinstance(v, (ast.List, ast.ListComp, ast.Dict, ast.DictComp, ast.Set, ast.SetComp)) or \
+                        (isinstance(v, ast.Call) and ast.unparse(v.func) in ("list", "dict", "set", "sorted", "bytearray")):
+                    kinds.append(("mutable", ast.unparse(n.value)[:40]))
+                elif isinstance(v, (ast.Tuple, ast.Constant)) or (isinstance(v, ast.Call) and ast.unparse(v.func) in ("tuple", "frozenset", "str", "bytes", "int")):
+                    kinds.append(("immutable", ast.unparse(n.value)[:40]))
+                else:
+                    kinds.append(("unknown", ast.unparse(n.value)[:40]))
+        mutable = [k for k in kinds if k[0] != "immutable"]
+        # consumers that edit the value they were handed
+        inplace = []
+        for cun, cunit in model.units.items():
+            if not cun.startswith("passlib."):
+                continue
+            for q, cfn in cunit.functions():
+                bound = set()
+                for n in walk_no_nested(cfn):
+                    if isinstance(n, ast.Assign) and isinstance(n.value, ast.Call) and ast.unparse(n.value.func).split(".")[-1] == name and isinstance(n.targets[0], ast.Name):
+                        bound.add(n.targets[0].id)
+                for n in walk_no_nested(cfn):
+                    if isinstance(n, ast.AugAssign) and isinstance(n.target, ast.Name) and n.target.id in bound:
+                        inplace.append((cun, q, ast.unparse(n)))
+                    if isinstance(n, ast.Call) and isinstance(n.func, ast.Attribute) and n.func.attr in MUTATING and isinstance(n.func.value, ast.Name) and n.func.value.id in bound:
+                        inplace.append((cun, q, ast.unparse(n)[:60]))
+        s = site(un, name)
+        if mutable and inplace:
+            for cun, q, txt in inplace:
+                rep.violation(R, s, f"returns {mutable[0][1]} (mutable, cached for the process); `{txt}` in {cun}:{q} edits it in place",
+                              "the memoized capability list is shared by every caller; an in-place edit by one consumer changes what all later consumers see",
+                              witness=f"import order decides the presets: after {cun} ran `{txt}`, every later caller of {name}() gets the edited list (e.g. htpasswd_context gains a scheme)")
+        else:
+            rep.hold(R, s, f"returns {[k[1] for k in kinds]}; in-place consumers: {len(inplace)} (harmless on an immutable value)")
+    rep.minimum(R, 1)
+
+
 def run(model, rep):
     rep.explanation = __doc__
     rep.assumptions = ["identify languages are modelled over a representative alphabet (printable ASCII, NL, TAB, NUL, one non-ASCII stand-in)",
@@ -324,3 +380,4 @@ def run(model, rep):
     table = HandlerTable(model)
     rule_a(model, rep, table)
     rule_bc(model, rep, table)
+    rule_d(model, rep)
